@@ -102,11 +102,14 @@ bool sameFile(const char* a, const char* b) { struct stat x, y; return ::stat(a,
 uint64_t faultCount() { return nfaults; }
 const std::string& faultedCalls() { return faultedNames; }
 int rRmdir(const char* a) { return ::rmdir(a); }
+static const char* lastCall = ""; static bool lastFaulted = false;
+bool lastCallWasFaulted(const char* name) { return lastFaulted && strstr(lastCall, name) != 0; }
 static int decide(const char* call) {
   if (!enabled || !inTask()) return 0;
+  lastCall = call; lastFaulted = false;
   chargeCall(); yieldSync();
   int c = choose(K_FS, 3);
-  if (c) { nfaults++; faultedNames += call; faultedNames += ' '; char n[48]; snprintf(n, sizeof n, c == 2 ? "fs_short_or_alt:%s" : "fs_err:%s", call); fault(n); logEvent("fs_fault", c); }
+  if (c) { lastFaulted = true; nfaults++; faultedNames += call; faultedNames += ' '; char n[48]; snprintf(n, sizeof n, c == 2 ? "fs_short_or_alt:%s" : "fs_err:%s", call); fault(n); logEvent("fs_fault", c); }
   return c;
 }
 bool active() { return enabled && inTask(); }
